@@ -223,7 +223,9 @@ where
             match node {
                 ClassElement::MethodDefinition(m) => {
                     if self.0 == ContainsSymbol::DirectEval {
-                        return ControlFlow::Continue(());
+                        // The code of a direct `eval` inside the method can name every binding
+                        // of the enclosing scopes, exactly as for a nested function.
+                        return self.visit_contains_eval(m.contains_direct_eval());
                     }
 
                     if let ClassElementName::PropertyName(name) = m.name() {
@@ -233,8 +235,30 @@ where
                     }
                 }
                 ClassElement::FieldDefinition(field)
-                | ClassElement::StaticFieldDefinition(field) => field.name.visit_with(self),
-                _ => ControlFlow::Continue(()),
+                | ClassElement::StaticFieldDefinition(field) => {
+                    field.name.visit_with(self)?;
+                    if self.0 == ContainsSymbol::DirectEval
+                        && let Some(initializer) = field.initializer()
+                    {
+                        return self.visit_expression(initializer);
+                    }
+                    ControlFlow::Continue(())
+                }
+                ClassElement::PrivateFieldDefinition(field)
+                | ClassElement::PrivateStaticFieldDefinition(field) => {
+                    if self.0 == ContainsSymbol::DirectEval
+                        && let Some(initializer) = field.initializer()
+                    {
+                        return self.visit_expression(initializer);
+                    }
+                    ControlFlow::Continue(())
+                }
+                ClassElement::StaticBlock(block) => {
+                    if self.0 == ContainsSymbol::DirectEval {
+                        return self.visit_function_body(block.statements());
+                    }
+                    ControlFlow::Continue(())
+                }
             }
         }
 
@@ -244,7 +268,10 @@ where
         ) -> ControlFlow<Self::BreakTy> {
             if let PropertyDefinition::MethodDefinition(m) = node {
                 if self.0 == ContainsSymbol::DirectEval {
-                    return ControlFlow::Continue(());
+                    // See `visit_class_element`: the method is a nested function as far as
+                    // direct `eval` is concerned.
+                    m.name().visit_with(self)?;
+                    return self.visit_contains_eval(m.contains_direct_eval());
                 }
 
                 if self.0 == ContainsSymbol::MethodDefinition {
